@@ -1907,6 +1907,11 @@ func (s *Netceptor) runProtocol(ctx context.Context, sess BackendSession, bi *Ba
 	for {
 		select {
 		case data := <-ci.ReadChan:
+			if len(data) == 0 {
+				s.Logger.Warning("Received an empty message from peer\n")
+
+				continue
+			}
 			msgType := data[0]
 			if established {
 				switch msgType {
